@@ -377,8 +377,8 @@ func (g *gen) block() {
 	} else if g.depth <= 6 {
 		n = g.r.Pick(2, 2)
 	}
-	fwd := ""    // pending forward label
-	fwdAt := -1  // statement index at which it is placed
+	fwd := ""   // pending forward label
+	fwdAt := -1 // statement index at which it is placed
 	for i := 0; i < n && g.budget > 0; i++ {
 		g.budget--
 		if fwd != "" && i == fwdAt {
